@@ -25,8 +25,11 @@ c03_test.go for the op and observation grammar).
   observations, with its own bookkeeping (independent of the model):
   per (service, thread, client) the arrival counters must be 0,1,2,… in arrival
   order — so successive pushes never overtake each other and whatever was issued
-  before the response arrives before it — and at `settle` everything issued
-  towards an open client has arrived. → `ok` / `VIOLATION <signature> <why>`.
+  before the response arrives before it —, per (service, client) — ALL threads of
+  the service together — the arrivals must follow the order in which the service's
+  goroutine handed the items over (its own log: handler code, timer callbacks and
+  the closures of its workers as executed; `service_push_before_response`), and at
+  `settle` everything issued towards an open client has arrived. → `ok` / `VIOLATION <signature> <why>`.
 `modeld_c03 model`  : `?` (the interleaving is nondeterministic), `ok n=<n>` for reset.
 -/
 namespace Cell2v.Driver.C03
@@ -139,9 +142,19 @@ structure Ent where
   arrived : Nat := 0
   broken : Bool := false
 
+/-- per (service, client): what the service's goroutine handed over towards the client — by code on the
+goroutine (`d`) or by executing a worker's closure (`x`) — in the order of the goroutine's own log -/
+structure SvcEnt where
+  svc : Nat
+  c : Nat
+  items : Array (Nat × Nat × Kind) := #[]   -- (thread, counter, kind)
+  arrived : Nat := 0
+  broken : Bool := false
+
 structure SpecSt where
   ents : List Ent := []
   gone : List Nat := []         -- clients that closed
+  svcs : List SvcEnt := []
 
 def SpecSt.find (s : SpecSt) (svc thr c : Nat) : Option Ent :=
   s.ents.find? (fun e => e.svc = svc ∧ e.thr = thr ∧ e.c = c)
@@ -188,6 +201,38 @@ def specArrive (s : SpecSt) (x : Item) : SpecSt × Option String :=
 
 def firstSome (a b : Option String) : Option String := match a with | some _ => a | none => b
 
+def SpecSt.findS (s : SpecSt) (svc c : Nat) : Option SvcEnt := s.svcs.find? (fun e => e.svc = svc ∧ e.c = c)
+
+def SpecSt.putS (s : SpecSt) (e : SvcEnt) : SpecSt :=
+  if s.svcs.any (fun f => f.svc = e.svc ∧ f.c = e.c) then
+    { s with svcs := s.svcs.map (fun f => if f.svc = e.svc ∧ f.c = e.c then e else f) }
+  else { s with svcs := s.svcs ++ [e] }
+
+/-- one entry of a service goroutine's log -/
+def specHand (s : SpecSt) (svc : Nat) (e : LogEnt) : SpecSt :=
+  let (thr, c, n, k) := match e with
+    | .d c n k => (0, c, n, k)
+    | .x thr c n k => (thr, c, n, k)
+  let ent := (s.findS svc c).getD { svc := svc, c := c }
+  s.putS { ent with items := ent.items.push (thr, n, k) }
+
+/-- the SERVICE as the unit of order: what client `x.client` reads from service `x.src.svc` — whatever
+thread issued it — must come in the order in which the service's goroutine handed it over -/
+def specArriveSvc (s : SpecSt) (x : Item) : SpecSt × Option String :=
+  match s.findS x.src.svc x.client with
+  | none => (s, none)      -- reported by the per-thread predicate (nobody issued it)
+  | some e =>
+    if e.broken then (s, none)
+    else if e.items[e.arrived]? = some (x.src.thr, x.seq, x.kind) then (s.putS { e with arrived := e.arrived + 1 }, none)
+    else
+      let s' := s.putS { e with broken := true }
+      match e.items[e.arrived]? with
+      | some (t, n, k) =>
+        let sig := if x.kind = .resp ∧ k = .push then "C03/push-overtaken-by-response-across-threads"
+          else "C03/overtaken-across-threads"
+        (s', some s!"{sig} client {x.client} read {showItem x} before {x.src.svc}.{t}>{x.client}#{n}{kindCh k}, which service {x.src.svc}'s goroutine handed over earlier")
+      | none => (s', some s!"C03/message-lost-or-duplicated client {x.client} read {showItem x}, which service {x.src.svc} had not handed over")
+
 def stepSpec (s : SpecSt) (line : String) : SpecSt × String :=
   match line.splitOn "\t" with
   | [op, obs] =>
@@ -201,10 +246,14 @@ def stepSpec (s : SpecSt) (line : String) : SpecSt × String :=
         let s := o.posts.foldl (fun s (σ, l) => specIssue s σ.svc σ.thr l) s
         let s := o.logs.foldl (fun s (svc, l) =>
           specIssue s svc 0 (l.filterMap fun e => match e with | .d c n k => some (c, n, k) | .x .. => none)) s
+        let s := o.logs.foldl (fun s (svc, l) => l.foldl (fun s e => specHand s svc e) s) s
         let (s, v) := o.arrs.foldl (fun (acc : SpecSt × Option String) (_, l) =>
           l.foldl (fun (acc : SpecSt × Option String) ox => match ox with
             | none => acc
-            | some x => let (s', v) := specArrive acc.1 x; (s', firstSome acc.2 v)) acc) (s, none)
+            | some x =>
+              let (s', v) := specArrive acc.1 x
+              let (s', v2) := specArriveSvc s' x
+              (s', firstSome acc.2 (firstSome v v2))) acc) (s, none)
         let s := if ws.head? = some "close" then { s with gone := (kvNat ws "c").toList ++ s.gone } else s
         let s := { s with gone := o.dead ++ s.gone }
         let v := match o.openL with
